@@ -849,10 +849,7 @@ def m_append(I, n, recv, pos, kw):
     from .absint import _SeqAcc
     if isinstance(recv, _SeqAcc):
         recv.appended.append(pos[0])
-        fr = I.frames[-1]
-        ls = fr.loop_stack[-1] if fr.loop_stack else None
-        if ls is not None and len(I.path) > ls["path_base"] + (0):
-            recv.conditional = recv.conditional or any(True for _ in I.path[ls["path_base"]:]) and False
+        recv.reaches.append(getattr(I, "cur_reach", sym.TRUE))
         return NoneV()
     if isinstance(recv, Seq):
         recv.items.append(pos[0])
